@@ -26,6 +26,8 @@ ALPHABET = {
               S("G92", ""), S("G92", "E#"), S("G92", "X# Y# Z#"), S("G92", "X"), S("M206", "X# Y#"), S("M206", "Z"),
               S("G1", "X# Y# E#")],
     "enter": [S("G1", "X# Y#"), S("G1", "X# Y# E#")],
+    "deferred": [S("M205", "X# E"), S("M204", "P# e"), S("M73", "P# R"), S("M204", "P#"), S("M117", "S1")],
+    "leave": [S("G1", "X# Y#"), S("G0", "X#")],
     "frame": [S("G20"), S("G91"), S("G92", "X# Y# Z#"), S("M206", "X# Y#"), S("G1", "X# Y# E#")],
     "other": [S("M105"), S("T0"), S("T1"), S("G5", "X# Y#"), S("M204", "P# T#"), S("M204", ""), S("M117", "S1"),
               S("G4", "P#"), S("M73", "P# R#"), S("M999"), S("G1", "X# Y#"), S("G38.2", "Z#")],
@@ -35,7 +37,7 @@ ALPHABET = {
 def scen(w, template="linear,linear", entry="hook", S_=3, regions=1, kinds="rd", indent=0):
     names = template.split(",")
     stream = (entry == "stream")
-    pipe = pl.Pipe(w, w.flag("g90e"), extended={"G4": "exclude", "M204": "merge", "M117": "last", "M73": "merge"},
+    pipe = pl.Pipe(w, w.flag("g90e"), extended={"G4": "exclude", "M204": "merge", "M117": "last", "M73": "merge", "M205": "merge"},
                    arc_stub=False, summarise=not stream, track_p=False)
     if w.symbolic:
         from symx import trig, values
@@ -117,6 +119,7 @@ def plan(tier):
     add("hook-other", "other,state")
     add("hook-arcs", "arcs", S_=2)
     add("hook-frame-arcs", "frame,arcs", S_=2, kinds="r")
+    add("hook-episode-deferred", "enter,deferred,leave", kinds="r")
     add("stream-state", "state,linear", entry="stream")
     add("stream-enter-state", "enter,state", entry="stream", indent=1)
     add("stream-arcs", "arcs", entry="stream", S_=2, kinds="r")
